@@ -505,8 +505,22 @@ pub fn run_history(ints: &[i64]) -> Vec<Out> {
         }
     }
     // final teardown, no fault armed
-    let r = catch_unwind(AssertUnwindSafe(move || drop(x)));
-    let mut fin = effects(if r.is_ok() { 0 } else { 2 }, true);
+    // (for every other history, by a checksum of its numbers, the world is dropped while a panic raised by the caller
+    // unwinds through the frame that owns it: exactly the same values must be destroyed)
+    struct CallerPanic;
+    let unwinding = ints.iter().fold(0i64, |a, &b| a.wrapping_add(b)) & 1 == 1;
+    let r = catch_unwind(AssertUnwindSafe(move || {
+        let owner = x;
+        if unwinding {
+            std::panic::panic_any(CallerPanic);
+        }
+        drop(owner)
+    }));
+    let ok = match &r {
+        Ok(()) => true,
+        Err(pl) => pl.is::<CallerPanic>(),
+    };
+    let mut fin = effects(if ok { 0 } else { 2 }, true);
     fin[0] = 90;
     tr.push(fin);
     tr
